@@ -178,6 +178,21 @@ def rav(x):
 # ---------------------------------------------------------------------------
 # KNeighbors
 # ---------------------------------------------------------------------------
+def guarded_case(f):
+    """an exception escaping a case constructor becomes a violating case that carries the arguments
+    (core.guarded), never a harness abort"""
+    import functools
+
+    @functools.wraps(f)
+    def w(vd, *a, **k):
+        kind = next((x for x in a if isinstance(x, str) and x.split("-")[0] in ("knn", "mask", "median_distance")), f.__name__)
+        inp = {"fn": f.__name__,
+               "args": [np.asarray(x, dtype=float).tolist() if isinstance(x, np.ndarray) else repr(x)[:300] for x in a],
+               "kwargs": {n: repr(v)[:300] for n, v in k.items() if n != "rnd"}}
+        return core.guarded(lambda: f(vd, *a, **k), inp, kind)
+    return w
+
+
 def extras(shape, salt):
     """extra coordinate arrays (vertical; for odd salt also time) of the given shape: non-constant and large
     compared with the horizontal distances.  Only easting and northing may be used by the C15 entry points."""
@@ -203,6 +218,7 @@ def clobber_arrays(how, arrays):
             raise ValueError(how)
 
 
+@guarded_case
 def knn_case(vd, de, dn, dv, qe, qn, combos, kind, extra=False, rnd=None, reuse=False, prefit=None, clobber=None):
     """one cloud, one query set, several (reduction, k).  With [rnd]: the arguments are passed in random
     containers / dtypes / layouts.  With [reuse]: one instance is first fitted on other data and used, then
@@ -394,6 +410,7 @@ PROJ = {
 }
 
 
+@guarded_case
 def meddist_case(vd, e, n, ks, pname, kind, extra=False, rnd=None):
     tags = ["nd", "nd"]
     pe_, pn_ = e, n
@@ -462,6 +479,7 @@ def aff_fn(c):
     return lambda e, n: (c[0] * e + c[1], c[2] * n + c[3])
 
 
+@guarded_case
 def mask_case(vd, de, dn, md, qe, qn, pname, kind, extra=False, scalar_data=False, rnd=None, qtags=None):
     tags = {"data": ["nd", "nd"], "query": ["nd", "nd"]}
     ade, adn, aqe, aqn = de, dn, qe, qn
@@ -600,56 +618,90 @@ def build_grid(how, dims, aeast, anorth, avals, other=None):
 GRID_HOW = ("dataset", "dataarray-east-first", "coords-then-assign", "east-first-variable-first")
 
 
-def grid_case(vd, de, dn, md, east, north, pname, dims, kind, twovars=False, rnd=None, how="dataset"):
-    import xarray as xr
+def grid_case(vd, de, dn, mds, east, north, pname, dims, kind, twovars=False, rnd=None, how="dataset", vdtype="float", readonly=False):
+    """the grid form called once per maxdist in [mds], one after the other, on the SAME Dataset (one Case per call):
+    every result must be right and the caller's Dataset must be left as it was.  [vdtype]='int': integer grid
+    variables; [readonly]: the variables' arrays are not writeable."""
     nn, ne = len(north), len(east)
-    vals = np.arange(1.0, nn * ne + 1).reshape(nn, ne)
+    vals = np.arange(1.0, nn * ne + 1).reshape(nn, ne)        # pristine logical values: never handed to verde
     tags = {}
     ade, adn, aeast, anorth, avals = de, dn, east, north, vals.copy()
     mesh = np.meshgrid(east, north)
     if rnd is not None:
         (ade, adn), tags["data"] = presentall(rnd, (de, dn), ("layout", "series", "list", "dtype"))
         (aeast, anorth), tags["grid_coords"] = presentall(rnd, (east, north), ("layout", "dtype"))
-        (avals,), tags["grid_values"] = presentall(rnd, (vals,), ("layout",))
+        (avals,), tags["grid_values"] = presentall(rnd, (vals.copy(),), ("layout",))
         mesh, tags["array_form_coords"] = presentall(rnd, mesh, ("layout", "dtype"))
-    grid = build_grid(how, dims, aeast, anorth, avals, -vals if twovars else None)
+    avals = np.array(avals, dtype=(np.int64 if vdtype == "int" else float), order="K")   # own buffer, layout kept
+    other = np.array(-vals, dtype=avals.dtype) if twovars else None
+    if readonly:
+        avals.flags.writeable = False
+        if other is not None:
+            other.flags.writeable = False
+    grid = build_grid(how, dims, aeast, anorth, avals, other)
     if pname is None:
         proj, cproj = None, "ident"
     else:
         proj = aff_fn(AFF[pname])
         cproj = "(affine %s %s %s %s)" % tuple(cD(x) for x in AFF[pname])
-    try:
-        masked = vd.distance_mask((ade, adn), md, grid=grid, projection=proj)
-        out = np.asarray(masked.scalars.values, dtype=float)
-        shape_ok = out.shape == (nn, ne) and list(masked.scalars.dims) == list(dims)
-        if twovars:
-            o2 = np.asarray(masked.other.values, dtype=float)
-            shape_ok = shape_ok and o2.shape == (nn, ne) and bool(np.array_equal(np.isnan(o2), np.isnan(out))) and \
-                bool(np.array_equal(o2[~np.isnan(o2)], -vals[~np.isnan(o2)]))
-        obs = [None if np.isnan(x) else float(x) for x in out.ravel()]
-        cgrid = "(Some %s)" % clist(["None" if x is None else "(Some %s)" % cD(x) for x in obs])
-    except Exception as ex:  # noqa
-        shape_ok, obs, cgrid = False, "%s: %s" % (type(ex).__name__, ex), "None"
-    try:
-        arr = np.asarray(vd.distance_mask((ade, adn), md, coordinates=tuple(mesh), projection=proj))
-        shape_ok = shape_ok and arr.shape == (nn, ne)
-        oarr = [bool(b) for b in arr.ravel()]
-        carr = "(Some %s)" % bl(arr)
-    except Exception as ex:  # noqa
-        shape_ok, oarr, carr = False, "%s: %s" % (type(ex).__name__, ex), "None"
-    term = "c15_grid %s %s %s %s %s %s %s %s %s %s" % (cproj, cD(md), dl(de), dl(dn), dl(east), dl(north), dl(vals), cbool(shape_ok), cgrid, carr)
-    repro = ("import verde, numpy as np; from harness.c15 import build_grid, AFF, aff_fn; e=np.array(%r); n=np.array(%r)\n"
-             "g=build_grid(%r, %r, e, n, np.arange(1.0, e.size*n.size+1).reshape(n.size, e.size)); p=%r\n"
-             "print(dict(g.sizes), g.scalars.dims)\n"
-             "print(verde.distance_mask((np.array(%r), np.array(%r)), %r, grid=g, projection=None if p is None else aff_fn(AFF[p])).scalars.values)\n"
-             "print(verde.distance_mask((np.array(%r), np.array(%r)), %r, coordinates=np.meshgrid(e, n), projection=None if p is None else aff_fn(AFF[p])))"
-             % (fl(east), fl(north), how, tuple(dims), pname, fl(de), fl(dn), md, fl(de), fl(dn), md))
-    if tags:
-        repro += "\n# presentations (harness.c15.mk): %r; array form called on mk(np.meshgrid(e, n)[i], tag_i)" % (tags,)
-    return Case({"fn": "distance_mask(grid=)", "maxdist": md, "data_easting": fl(de), "data_northing": fl(dn), "grid_easting": fl(east),
-                 "grid_northing": fl(north), "dims": list(dims), "projection": pname, "two_vars": twovars, "presentation": tags,
-                 "dataset_built_by": how},
-                {"grid_values": obs, "array_form": oarr, "shape_ok": shape_ok}, term, repro, kind)
+    out_cases = []
+    for call, md in enumerate(mds):
+        try:
+            masked = vd.distance_mask((ade, adn), md, grid=grid, projection=proj)
+            out = np.asarray(masked.scalars.values, dtype=float)
+            shape_ok = out.shape == (nn, ne) and list(masked.scalars.dims) == list(dims)
+            if twovars:
+                o2 = np.asarray(masked.other.values, dtype=float)
+                shape_ok = shape_ok and o2.shape == (nn, ne) and bool(np.array_equal(np.isnan(o2), np.isnan(out))) and \
+                    bool(np.array_equal(o2[~np.isnan(o2)], -vals[~np.isnan(o2)]))
+            obs = [None if np.isnan(x) else float(x) for x in out.ravel()]
+            cgrid = "(Some %s)" % clist(["None" if x is None else "(Some %s)" % cD(x) for x in obs])
+        except Exception as ex:  # noqa
+            shape_ok, obs, cgrid = False, "%s: %s" % (type(ex).__name__, ex), "None"
+        # the caller's Dataset is as it was (values, dtype), whatever happened
+        try:
+            gv = np.asarray(grid["scalars"].values)
+            untouched = gv.dtype == avals.dtype and bool(np.array_equal(gv.astype(float), vals, equal_nan=True))
+            if twovars:
+                untouched = untouched and bool(np.array_equal(np.asarray(grid["other"].values, dtype=float), -vals, equal_nan=True))
+        except Exception:  # noqa
+            untouched = False
+        try:
+            arr = np.asarray(vd.distance_mask((ade, adn), md, coordinates=tuple(mesh), projection=proj))
+            shape_ok = shape_ok and arr.shape == (nn, ne)
+            oarr = [bool(b) for b in arr.ravel()]
+            carr = "(Some %s)" % bl(arr)
+        except Exception as ex:  # noqa
+            shape_ok, oarr, carr = False, "%s: %s" % (type(ex).__name__, ex), "None"
+        term = "c15_grid %s %s %s %s %s %s %s %s %s %s" % (cproj, cD(md), dl(de), dl(dn), dl(east), dl(north), dl(vals),
+                                                          cbool(shape_ok and untouched), cgrid, carr)
+        repro = ("import verde, numpy as np; from harness.c15 import build_grid, AFF, aff_fn; e=np.array(%r); n=np.array(%r)\n"
+                 "v=np.arange(1.0, e.size*n.size+1).reshape(n.size, e.size).astype(%r); v.flags.writeable = %r\n"
+                 "g=build_grid(%r, %r, e, n, v); p=%r; proj=None if p is None else aff_fn(AFF[p])\n"
+                 "print(dict(g.sizes), g.scalars.dims)\n"
+                 "for md in %r:   # calls on the SAME Dataset; the last one is this case\n"
+                 "    print(md); print(verde.distance_mask((np.array(%r), np.array(%r)), md, grid=g, projection=proj).scalars.values)\n"
+                 "    print(verde.distance_mask((np.array(%r), np.array(%r)), md, coordinates=np.meshgrid(e, n), projection=proj))\n"
+                 "print('input grid afterwards:'); print(g.scalars.values)"
+                 % (fl(east), fl(north), "int64" if vdtype == "int" else "float64", not readonly, how, tuple(dims), pname,
+                    [float(x) for x in mds[:call + 1]], fl(de), fl(dn), fl(de), fl(dn)))
+        if tags:
+            repro += "\n# presentations (harness.c15.mk): %r; array form called on mk(np.meshgrid(e, n)[i], tag_i)" % (tags,)
+        out_cases.append(Case(
+            {"fn": "distance_mask(grid=)", "maxdist": md, "data_easting": fl(de), "data_northing": fl(dn), "grid_easting": fl(east),
+             "grid_northing": fl(north), "dims": list(dims), "projection": pname, "two_vars": twovars, "presentation": tags,
+             "dataset_built_by": how, "grid_values_dtype": vdtype, "grid_values_readonly": readonly,
+             "earlier_calls_on_the_same_dataset_with_maxdist": [float(x) for x in mds[:call]]},
+            {"grid_values": obs, "array_form": oarr, "shape_ok": shape_ok, "input_dataset_untouched": untouched}, term, repro,
+            kind + ("" if call == 0 else "-call%d" % (call + 1))))
+    return out_cases
+
+
+def safe_cases(cases, kind, inp, make):
+    """an exception escaping a case constructor (the implementation raised on a valid input, or left something
+    the harness cannot even describe) becomes a violating case carrying the input - never a harness abort"""
+    res = core.guarded(make, inp, kind)
+    cases.extend(res if isinstance(res, list) else [res])
 
 
 def gen_grid(vd, rnd, tier, cases):
@@ -678,12 +730,29 @@ def gen_grid(vd, rnd, tier, cases):
         md = rnd.choice([1.0, 2.0, 5.0, 1.5, 2.5, 3.0, 0.0]) * scale
         if pname is not None:
             md = md * rnd.choice([1, 2])
-        cases.append(grid_case(vd, de, dn, float(md), east.astype(float), north.astype(float), pname, dimnames[c % len(dimnames)],
-                               "mask-grid" + ("-square" if nn == ne else "") + ("" if pname is None else "-affine"), twovars=(c % 6 == 0), rnd=rnd,
-                               how=GRID_HOW[(c // 2) % len(GRID_HOW)]))
-    # the docstring example
+        # one call, or three calls on the same Dataset with increasing / decreasing maxdist
+        if c % 3 == 0:
+            mds = [float(md)]
+        else:
+            f = 1 if pname is None else 2
+            mds = sorted(float(x * scale * f) for x in rnd.sample([0.0, 1.0, 1.5, 2.0, 2.5, 3.0, 5.0], 3))
+            if c % 3 == 2:
+                mds = mds[::-1]
+        vdtype = "int" if c % 5 == 1 else "float"
+        readonly = c % 5 == 3 or c % 10 == 6
+        kind = ("mask-grid" + ("-square" if nn == ne else "") + ("" if pname is None else "-affine") +
+                ("-int" if vdtype == "int" else "") + ("-readonly" if readonly else ""))
+        E, N = east.astype(float), north.astype(float)
+        dims, two, how = dimnames[c % len(dimnames)], c % 6 == 0, GRID_HOW[(c // 2) % len(GRID_HOW)]
+        safe_cases(cases, kind, {"fn": "distance_mask(grid=)", "maxdists": mds, "data_easting": fl(de), "data_northing": fl(dn),
+                                 "grid_easting": fl(E), "grid_northing": fl(N), "dims": list(dims), "projection": pname,
+                                 "dataset_built_by": how, "grid_values_dtype": vdtype, "grid_values_readonly": readonly},
+                   lambda: grid_case(vd, de, dn, mds, E, N, pname, dims, kind, twovars=two, rnd=rnd, how=how, vdtype=vdtype, readonly=readonly))
+    # the docstring example, then a smaller and a larger maxdist on the same Dataset
     coords = vd.grid_coordinates((0, 5, -10, -4), spacing=1)
-    cases.append(grid_case(vd, np.array([3.5]), np.array([-7.5]), 2.0, coords[0][0, :], coords[1][:, 0], None, ("northing", "easting"), "mask-grid-docstring"))
+    safe_cases(cases, "mask-grid-docstring", {"fn": "distance_mask(grid=)", "docstring": True},
+               lambda: grid_case(vd, np.array([3.5]), np.array([-7.5]), [2.0, 1.0, 3.0], coords[0][0, :], coords[1][:, 0], None,
+                                 ("northing", "easting"), "mask-grid-docstring"))
 
 
 def generate(tier, seed):
